@@ -192,7 +192,8 @@ def build_logic(case: "gen.Case", rec: Rec, gtable: Dict[str, Any],
         actions.update(extra_actions)
 
     def mk_guard(name):
-        def _guard(ctx, event, _n=name):
+        def _guard(ctx, event):
+            _n = name
             v = gtable.get(_n, False)
             log.append(("guard", _n, v))
             if v == "raise":
@@ -200,10 +201,54 @@ def build_logic(case: "gen.Case", rec: Rec, gtable: Dict[str, Any],
             return bool(v)
         return _guard
 
-    guards = {a: mk_guard(a) for a in case.atoms}
+    # the same predicates as the kinds of callable a user may register (plain function, callable
+    # object, functools.partial, functools.wraps-decorated wrapper), fixed per case
+    salt = len(case.trans) + len(case.tree.order)
+
+    def gP(ctx, event, params):
+        _n = params["atom"]
+        v = gtable.get(_n, False)
+        log.append(("guard", _n, v))
+        if v == "raise":
+            raise GuardRaised(_n)
+        return bool(v)
+    guards = {a: _callable_kind(mk_guard(a), 2, (salt + i) % 4) for i, a in enumerate(case.atoms)}
+    guards["gP"] = _callable_kind(gP, 3, salt % 4)
     guards["hasBudget"] = lambda ctx, event: ctx.get("b", 0) > 0
     return MachineLogic(actions=actions, guards=guards, services=services or {},
                         delays=delays or {})
+
+
+class _Guard2:
+    def __init__(self, f):
+        self.f = f
+
+    def __call__(self, context, event):
+        return self.f(context, event)
+
+
+class _Guard3:
+    def __init__(self, f):
+        self.f = f
+
+    def __call__(self, context, event, params):
+        return self.f(context, event, params)
+
+
+def _callable_kind(f, arity, kind):
+    import functools
+    if kind == 1:
+        return _Guard2(f) if arity == 2 else _Guard3(f)
+    if kind == 2:
+        if arity == 2:
+            return functools.partial(lambda tag, c, e: f(c, e), "bound")
+        return functools.partial(lambda tag, c, e, params: f(c, e, params), "bound")
+    if kind == 3:
+        @functools.wraps(f)
+        def wrapper(*a, **k):
+            return f(*a, **k)
+        return wrapper
+    return f
 
 
 class ServiceFailure(Exception):
